@@ -139,7 +139,7 @@ func init() {
 		Batches: [2]int{1, 10}, PerBatch: [2]int{64, 64}, Cases: [2]int{200, 600},
 		Rule:        "cases = (schema with path variables and query-annotated fields of every URL kind on every verb, incl. repeated query fields) x RPC x raw HTTP request: URL values per kind drawn from {clearly valid canonical forms, clearly invalid (non-numeric, fractional, out of range, empty), grey (only judged for no-5xx)}, canonical or fully percent-encoded segments, missing/present query parameters x body in {absent, zero-length, {}, object/wire message carrying only the non-URL fields} x content type {JSON, binary}. Oracle = reference binder B: handler-visible request == body fields + URL values, or 400 whose violations name an offending field and no dispatch. Non-trivial = body verb with a body carrying other fields, or >= 1 offending URL value / missing required parameter; distinct by (request line, body).",
 		Assumptions: append([]string{"grey URL spellings (+5, 0x10, T, inf, leading spaces) are generated but only checked for no panic / no 5xx", "repeated occurrences of a singular query parameter are not generated (first/last-wins is undocumented)"}, commonAssumptions...)})
-	registerRuntime(&runtimeCheck{ID: "C09", Profile: schema.ProfileHeaders, Inner: []string{"c09"}, Prefix: "h", Variant: "server",
+	registerRuntime(&runtimeCheck{ID: "C09", Profile: schema.ProfileHeaders, Inner: []string{"c09", "c09ts"}, Prefix: "h", Variant: "server", Prepare: prepareTS,
 		Batches: [2]int{1, 10}, PerBatch: [2]int{64, 64}, Cases: [2]int{250, 800},
 		Rule:        "cases = (schema with service- and method-level header declarations: required/optional x type {string,integer,number,boolean,array,unset} x format {uuid,email,date-time,date,time,unset}, overriding) x RPC x header value set (absent, empty, must-accept, must-reject per type/format incl. non-UTF-8, grey) x body valid / undecodable. Oracle = reference header validator H with documented merge semantics: dispatch iff every required header is in its must-accept set, else 400 with exactly one violation per offending header even when the body is undecodable; grey values only judged for no-5xx. Non-trivial = a required header with a format or non-string type, an override, or >= 2 offending headers; distinct by (request line, header set).",
 		Assumptions: append([]string{"must-accept / must-reject sets come from RFC 4122, RFC 3339 and sebuf's documentation (time = HH:MM:SS); everything else is grey", "service/method declarations whose names differ only in case are skipped (override semantics undocumented)"}, commonAssumptions...)})
